@@ -273,10 +273,10 @@ class FactorSet(object):
             return factor_set
 
     def __mul__(self, other):
-        return self.product(other)
+        return self.product(other, inplace=False)
 
     def __truediv__(self, other):
-        return self.divide(other)
+        return self.divide(other, inplace=False)
 
     def __str__(self):
         return self.factors.__str__()
